@@ -61,36 +61,120 @@ theorem mem_stepWorkflowPaths {steps : List Step} {q : String} :
 
 /-! ## transitive references -/
 
-/-- `Reach norm fs steps q`: key `q` is referenced by a foreach step of `steps`, or of a file so referenced, … -/
-inductive Reach (norm : String → String) (fs : FS) : List Step → String → Prop where
-  | direct {steps : List Step} {p : String} : p ∈ stepWorkflowPaths steps → Reach norm fs steps p
-  | trans {steps sub : List Step} {p q : String} : p ∈ stepWorkflowPaths steps → lookup fs (norm p) = some (.wf sub) →
-      Reach norm fs sub q → Reach norm fs steps q
+/-- the content a referenced key denotes: the caller's file under that key, else the file on disk -/
+def denot (norm : String → String) (fs : FS) (sup : Supplied) (p : String) : Option FileContent :=
+  match supLookup sup p with
+  | some c => some c
+  | none => lookup fs (norm p)
+
+/-- what the chain holds for a referenced key: the key of a supplied file, the (absolute) name of a file on disk -/
+def entry (norm : String → String) (sup : Supplied) (p : String) : String :=
+  if (supLookup sup p).isSome then p else norm p
+
+theorem denot_supplied {norm : String → String} {fs : FS} {sup : Supplied} {p : String} {c : FileContent}
+    (h : supLookup sup p = some c) : denot norm fs sup p = some c := by simp [denot, h]
+
+theorem denot_disk {norm : String → String} {fs : FS} {sup : Supplied} {p : String}
+    (h : supLookup sup p = none) : denot norm fs sup p = lookup fs (norm p) := by simp [denot, h]
+
+theorem entry_supplied {norm : String → String} {sup : Supplied} {p : String} {c : FileContent}
+    (h : supLookup sup p = some c) : entry norm sup p = p := by simp [entry, h]
+
+theorem entry_disk {norm : String → String} {sup : Supplied} {p : String}
+    (h : supLookup sup p = none) : entry norm sup p = norm p := by simp [entry, h]
+
+/-- `Reach norm fs sup steps q`: key `q` is referenced by a foreach step of `steps`, or of a file so referenced, … -/
+inductive Reach (norm : String → String) (fs : FS) (sup : Supplied) : List Step → String → Prop where
+  | direct {steps : List Step} {p : String} : p ∈ stepWorkflowPaths steps → Reach norm fs sup steps p
+  | trans {steps sub : List Step} {p q : String} : p ∈ stepWorkflowPaths steps → denot norm fs sup p = some (.wf sub) →
+      Reach norm fs sup sub q → Reach norm fs sup steps q
 
 /-- the file `q` denotes is a workflow that transitively references itself (under some spelling) -/
-def OnCycle (norm : String → String) (fs : FS) (q : String) : Prop :=
-  ∃ st, lookup fs (norm q) = some (.wf st) ∧ ∃ q', Reach norm fs st q' ∧ norm q' = norm q
+def OnCycle (norm : String → String) (fs : FS) (sup : Supplied) (q : String) : Prop :=
+  ∃ st, denot norm fs sup q = some (.wf st) ∧ ∃ q', Reach norm fs sup st q' ∧ entry norm sup q' = entry norm sup q
 
-/-- what a successful discovery guarantees about a transitively referenced file -/
-def Good (norm : String → String) (fs : FS) (chain files : List String) (q : String) : Prop :=
-  q ∈ files ∧ ¬ norm q ∈ chain ∧ (∃ st, lookup fs (norm q) = some (.wf st)) ∧ ¬ OnCycle norm fs q
+/-- what a successful discovery guarantees about a transitively referenced file: it is in the returned cache (or the
+    caller supplied it: `Parse` merges the caller's cache over the returned one), it is not in the chain, it converts, it
+    is not on a reference cycle -/
+def Good (norm : String → String) (fs : FS) (sup : Supplied) (chain files : List String) (q : String) : Prop :=
+  ((supLookup sup q).isSome ∨ q ∈ files) ∧ ¬ entry norm sup q ∈ chain ∧
+    (∃ st, denot norm fs sup q = some (.wf st)) ∧ ¬ OnCycle norm fs sup q
 
-theorem Good.mono {norm : String → String} {fs : FS} {chain chain' files files' : List String} {q : String}
-    (hf : ∀ x ∈ files, x ∈ files') (hc : ∀ x ∈ chain', x ∈ chain) (h : Good norm fs chain files q) :
-    Good norm fs chain' files' q :=
-  ⟨hf q h.1, fun hq => h.2.1 (hc _ hq), h.2.2.1, h.2.2.2⟩
+theorem Good.mono {norm : String → String} {fs : FS} {sup : Supplied} {chain chain' files files' : List String} {q : String}
+    (hf : ∀ x ∈ files, x ∈ files') (hc : ∀ x ∈ chain', x ∈ chain) (h : Good norm fs sup chain files q) :
+    Good norm fs sup chain' files' q :=
+  ⟨h.1.imp id (hf q), fun hq => h.2.1 (hc _ hq), h.2.2.1, h.2.2.2⟩
 
-/-- the hypothesis the loop lemma needs about the recursive calls -/
-def CallsGood (norm : String → String) (fs : FS) (chain : List String) : Prop :=
-  ∀ (p : String) (sub : List Step) (acc : List (List String)) (files : List String),
-    ¬ p ∈ chain → lookup fs p = some (.wf sub) → subworkflowCache norm fs sub acc (chain ++ [p]) = .ok files →
-    ∀ q, Reach norm fs sub q → Good norm fs (chain ++ [p]) files q
+/-- a chain entry the measure accounts for: a file of the file system or a supplied key -/
+def Visitable (fs : FS) (sup : Supplied) (e : String) : Prop :=
+  (∃ c, lookup fs e = some c) ∨ (∃ c, supLookup sup e = some c)
 
-theorem loop_inv (norm : String → String) (fs : FS) (chain : List String) (hcalls : CallsGood norm fs chain) :
-    ∀ (paths : List String) (acc caches : List (List String)), loopFiles norm fs chain paths acc = .ok caches →
+theorem measure_lt {fs : FS} {sup : Supplied} {chain : List String} {e : String} (hv : Visitable fs sup e)
+    (hn : ¬ e ∈ chain) : measure fs sup (chain ++ [e]) < measure fs sup chain := by
+  rcases hv with ⟨c, h⟩ | ⟨c, h⟩
+  · exact measure_lt_disk h hn
+  · exact measure_lt_supplied h hn
+
+/-- the hypothesis the loop lemmas need about the recursive calls -/
+def CallsGood (norm : String → String) (fs : FS) (sup : Supplied) (chain : List String) : Prop :=
+  ∀ (e : String) (sub : List Step) (acc : List (List String)) (files : List String),
+    ¬ e ∈ chain → Visitable fs sup e → subworkflowCache norm fs sup sub acc (chain ++ [e]) = .ok files →
+    ∀ q, Reach norm fs sup sub q → Good norm fs sup (chain ++ [e]) files q
+
+theorem loopSupplied_inv (norm : String → String) (fs : FS) (sup : Supplied) (chain : List String)
+    (hcalls : CallsGood norm fs sup chain) :
+    ∀ (paths : List String) (acc caches : List (List String)), loopSupplied norm fs sup chain paths acc = .ok caches →
+      (∀ c ∈ acc, c ∈ caches) ∧
+      ∀ p ∈ paths, ∀ c, supLookup sup p = some c → ¬ p ∈ chain ∧ ∃ sub, c = .wf sub ∧
+        ∀ q, Reach norm fs sup sub q → Good norm fs sup (chain ++ [p]) caches.flatten q := by
+  intro paths
+  induction paths with
+  | nil =>
+    intro acc caches h
+    rw [loopSupplied] at h
+    injection h with h
+    subst h
+    exact ⟨fun c hc => hc, fun p hp => by simp at hp⟩
+  | cons p rest ih =>
+    intro acc caches h
+    rw [loopSupplied] at h
+    split at h
+    · rename_i hs
+      obtain ⟨hacc, hrest⟩ := ih acc caches h
+      refine ⟨hacc, ?_⟩
+      intro p' hp' c hc
+      rcases List.mem_cons.mp hp' with rfl | hp'
+      · rw [hs] at hc; cases hc
+      · exact hrest p' hp' c hc
+    · split at h <;> cases h
+    · rename_i sub hs
+      split at h
+      · cases h
+      · rename_i hc
+        simp only at h
+        split at h
+        · cases h
+        · cases h
+        · rename_i flowCache hsub
+          obtain ⟨hacc, hrest⟩ := ih (acc ++ [flowCache]) caches h
+          refine ⟨fun c hcm => hacc c (by simp [hcm]), ?_⟩
+          intro p' hp' c hc'
+          rcases List.mem_cons.mp hp' with rfl | hp'
+          · rw [hs] at hc'
+            cases hc'
+            refine ⟨hc, sub, rfl, ?_⟩
+            intro q hq
+            have hg := hcalls p' sub acc flowCache hc (Or.inr ⟨_, hs⟩) hsub q hq
+            have hfc : flowCache ∈ caches := hacc flowCache (by simp)
+            exact hg.mono (fun x hx => List.mem_flatten.mpr ⟨flowCache, hfc, hx⟩) (fun x hx => hx)
+          · exact hrest p' hp' c hc'
+
+theorem loop_inv (norm : String → String) (fs : FS) (sup : Supplied) (chain : List String)
+    (hcalls : CallsGood norm fs sup chain) :
+    ∀ (paths : List String) (acc caches : List (List String)), loopFiles norm fs sup chain paths acc = .ok caches →
       (∀ c ∈ acc, c ∈ caches) ∧
       ∀ p ∈ paths, ¬ norm p ∈ chain ∧ ∃ sub, lookup fs (norm p) = some (.wf sub) ∧
-        ∀ q, Reach norm fs sub q → Good norm fs (chain ++ [norm p]) caches.flatten q := by
+        ∀ q, Reach norm fs sup sub q → Good norm fs sup (chain ++ [norm p]) caches.flatten q := by
   intro paths
   induction paths with
   | nil =>
@@ -120,7 +204,7 @@ theorem loop_inv (norm : String → String) (fs : FS) (chain : List String) (hca
           rcases List.mem_cons.mp hp' with rfl | hp'
           · refine ⟨hc, sub, hl, ?_⟩
             intro q hq
-            have hg := hcalls (norm p') sub acc flowCache hc hl hsub q hq
+            have hg := hcalls (norm p') sub acc flowCache hc (Or.inl ⟨_, hl⟩) hsub q hq
             have hfc : flowCache ∈ caches := hacc flowCache (by simp)
             exact hg.mono (fun x hx => List.mem_flatten.mpr ⟨flowCache, hfc, hx⟩) (fun x hx => hx)
           · exact hrest p' hp'
@@ -131,57 +215,131 @@ theorem lookup_wf_inj {fs : FS} {p : String} {a b : List Step} (ha : lookup fs p
   injection hb with hb
   injection hb
 
-/-- the invariant of `subworkflowCache`, by strong induction on the number of files not yet in the chain -/
-theorem cache_inv (norm : String → String) (fs : FS) : ∀ (n : Nat) (chain : List String), unvisited fs chain = n →
+theorem wf_inj {x : Option FileContent} {a b : List Step} (ha : x = some (.wf a)) (hb : x = some (.wf b)) : a = b := by
+  rw [ha] at hb
+  injection hb with hb
+  injection hb
+
+/-- the invariant of `subworkflowCache`, by strong induction on the termination measure -/
+theorem cache_inv (norm : String → String) (fs : FS) (sup : Supplied) : ∀ (n : Nat) (chain : List String),
+    measure fs sup chain = n →
     ∀ (steps : List Step) (acc : List (List String)) (files : List String),
-      subworkflowCache norm fs steps acc chain = .ok files → ∀ q, Reach norm fs steps q → Good norm fs chain files q := by
+      subworkflowCache norm fs sup steps acc chain = .ok files →
+      ∀ q, Reach norm fs sup steps q → Good norm fs sup chain files q := by
   intro n
   induction n using Nat.strongRecOn with
   | ind n ihn =>
     intro chain hn steps acc files h q hq
-    have hcalls : CallsGood norm fs chain := by
-      intro p sub acc' files' hc hl hsub q' hq'
-      have hlt := unvisited_lt hl hc
-      exact ihn (unvisited fs (chain ++ [p])) (by omega) (chain ++ [p]) rfl sub acc' files' hsub q' hq'
+    have hcalls : CallsGood norm fs sup chain := by
+      intro e sub acc' files' hc hv hsub q' hq'
+      have hlt := measure_lt hv hc
+      exact ihn (measure fs sup (chain ++ [e])) (by omega) (chain ++ [e]) rfl sub acc' files' hsub q' hq'
     rw [subworkflowCache] at h
+    simp only at h
     split at h
-    · -- no foreach step: nothing is reachable
-      rename_i hempty
-      have hnil : stepWorkflowPaths steps = [] := by simpa using hempty
+    · cases h
+    · cases h
+    · rename_i caches₁ hsup
+      obtain ⟨_, hsupp⟩ := loopSupplied_inv norm fs sup chain hcalls _ _ _ hsup
+      -- what the two loops give for a referenced path `p` of `steps`, in terms of the final key list
+      have key : ∀ p ∈ stepWorkflowPaths steps, ¬ entry norm sup p ∈ chain ∧ ((supLookup sup p).isSome ∨ p ∈ files) ∧
+          ∃ sub, denot norm fs sup p = some (.wf sub) ∧
+            ∀ q, Reach norm fs sup sub q → Good norm fs sup (chain ++ [entry norm sup p]) files q := by
+        intro p hp
+        cases hs : supLookup sup p with
+        | some c =>
+          obtain ⟨hnc, sub, hc, hreach⟩ := hsupp p hp c hs
+          subst hc
+          rw [entry_supplied hs]
+          refine ⟨hnc, Or.inl (by simp), sub, denot_supplied hs, fun q hq => ?_⟩
+          refine (hreach q hq).mono (fun x hx => ?_) (fun x hx => hx)
+          split at h
+          · injection h with h; subst h; exact hx
+          · split at h
+            · split at h
+              · cases h
+              · cases h
+              · rename_i caches hloop
+                injection h with h
+                subst h
+                obtain ⟨hacc, _⟩ := loop_inv norm fs sup chain hcalls _ _ _ hloop
+                obtain ⟨c, hc, hxc⟩ := List.mem_flatten.mp hx
+                exact List.mem_flatten.mpr ⟨c, by simp [hacc c hc], hxc⟩
+            · cases h
+        | none =>
+          have hrest : p ∈ (stepWorkflowPaths steps).filter (fun p => (supLookup sup p).isNone) := by
+            simp [List.mem_filter, hp, hs]
+          split at h
+          · rename_i hempty
+            simp only [List.isEmpty_iff] at hempty
+            rw [hempty] at hrest
+            cases hrest
+          · split at h
+            · split at h
+              · cases h
+              · cases h
+              · rename_i caches hloop
+                injection h with h
+                subst h
+                obtain ⟨_, hpaths⟩ := loop_inv norm fs sup chain hcalls _ _ _ hloop
+                obtain ⟨hnc, sub, hl, hreach⟩ := hpaths p hrest
+                rw [entry_disk hs]
+                refine ⟨hnc, Or.inr ?_, sub, (denot_disk hs).trans hl, fun q hq => ?_⟩
+                · exact List.mem_flatten.mpr ⟨_, by simp, hrest⟩
+                · exact (hreach q hq).mono (fun x hx => by
+                    obtain ⟨c, hc, hxc⟩ := List.mem_flatten.mp hx
+                    exact List.mem_flatten.mpr ⟨c, by simp [hc], hxc⟩) (fun x hx => hx)
+            · cases h
       cases hq with
-      | direct hp => rw [hnil] at hp; simp at hp
-      | trans hp _ _ => rw [hnil] at hp; simp at hp
-    · split at h
-      · split at h
-        · cases h
-        · cases h
-        · rename_i caches hloop
-          injection h with h
-          subst h
-          obtain ⟨_, hpaths⟩ := loop_inv norm fs chain hcalls _ _ _ hloop
-          have hsub : ∀ x ∈ caches.flatten, x ∈ (caches ++ [stepWorkflowPaths steps]).flatten := by
-            intro x hx; simp [List.flatten_append]; exact Or.inl (by simpa using hx)
-          cases hq with
-          | direct hp =>
-            obtain ⟨hnc, sub, hl, hreach⟩ := hpaths q hp
-            refine ⟨by simp [List.flatten_append, hp], hnc, ⟨sub, hl⟩, ?_⟩
-            rintro ⟨st, hst, q', hcyc, hq'⟩
-            have := lookup_wf_inj hl hst
-            subst this
-            exact (hreach q' hcyc).2.1 (by simp [hq'])
-          | trans hp hl' hq' =>
-            obtain ⟨_, sub, hl, hreach⟩ := hpaths _ hp
-            have := lookup_wf_inj hl hl'
-            subst this
-            exact (hreach q hq').mono hsub (fun x hx => by simp [hx])
-      · cases h
+      | direct hp =>
+        obtain ⟨hnc, hin, sub, hden, hreach⟩ := key q hp
+        refine ⟨hin, hnc, ⟨sub, hden⟩, ?_⟩
+        rintro ⟨st, hst, q', hcyc, hq'⟩
+        have := wf_inj hden hst
+        subst this
+        exact (hreach q' hcyc).2.1 (by simp [hq'])
+      | trans hp hden' hq' =>
+        obtain ⟨_, _, sub, hden, hreach⟩ := key _ hp
+        have := wf_inj hden hden'
+        subst this
+        exact (hreach q hq').mono (fun x hx => hx) (fun x hx => by simp [hx])
 
 /-! ## no panic -/
 
-theorem loop_no_panic (norm : String → String) (fs : FS) (chain : List String)
-    (hcalls : ∀ (p : String) (sub : List Step) (acc : List (List String)) (s : String), ¬ p ∈ chain →
-      lookup fs p = some (.wf sub) → subworkflowCache norm fs sub acc (chain ++ [p]) ≠ .panic s) :
-    ∀ (paths : List String) (acc : List (List String)) (s : String), loopFiles norm fs chain paths acc ≠ .panic s := by
+/-- the hypothesis about the recursive calls -/
+def CallsNoPanic (norm : String → String) (fs : FS) (sup : Supplied) (chain : List String) : Prop :=
+  ∀ (e : String) (sub : List Step) (acc : List (List String)) (s : String), ¬ e ∈ chain → Visitable fs sup e →
+    subworkflowCache norm fs sup sub acc (chain ++ [e]) ≠ .panic s
+
+theorem loopSupplied_no_panic (norm : String → String) (fs : FS) (sup : Supplied) (chain : List String)
+    (hcalls : CallsNoPanic norm fs sup chain) :
+    ∀ (paths : List String) (acc : List (List String)) (s : String), loopSupplied norm fs sup chain paths acc ≠ .panic s := by
+  intro paths
+  induction paths with
+  | nil =>
+    intro acc s h
+    rw [loopSupplied] at h
+    cases h
+  | cons p rest ih =>
+    intro acc s h
+    rw [loopSupplied] at h
+    split at h
+    · exact ih _ s h
+    · split at h <;> cases h
+    · rename_i sub hs
+      split at h
+      · cases h
+      · rename_i hc
+        simp only at h
+        split at h
+        · cases h
+        · rename_i s' hsub
+          exact hcalls _ sub acc s' hc (Or.inr ⟨_, hs⟩) hsub
+        · exact ih _ s h
+
+theorem loop_no_panic (norm : String → String) (fs : FS) (sup : Supplied) (chain : List String)
+    (hcalls : CallsNoPanic norm fs sup chain) :
+    ∀ (paths : List String) (acc : List (List String)) (s : String), loopFiles norm fs sup chain paths acc ≠ .panic s := by
   intro paths
   induction paths with
   | nil =>
@@ -202,32 +360,36 @@ theorem loop_no_panic (norm : String → String) (fs : FS) (chain : List String)
         split at h
         · cases h
         · rename_i s' hsub
-          exact hcalls _ sub acc s' hc hl hsub
+          exact hcalls _ sub acc s' hc (Or.inl ⟨_, hl⟩) hsub
         · exact ih _ s h
 
 /-- no statement of the sub-workflow discovery panics -/
-theorem cache_no_panic (norm : String → String) (fs : FS) : ∀ (n : Nat) (chain : List String),
-    unvisited fs chain = n → ∀ (steps : List Step) (acc : List (List String)) (s : String),
-      subworkflowCache norm fs steps acc chain ≠ .panic s := by
+theorem cache_no_panic (norm : String → String) (fs : FS) (sup : Supplied) : ∀ (n : Nat) (chain : List String),
+    measure fs sup chain = n → ∀ (steps : List Step) (acc : List (List String)) (s : String),
+      subworkflowCache norm fs sup steps acc chain ≠ .panic s := by
   intro n
   induction n using Nat.strongRecOn with
   | ind n ihn =>
     intro chain hn steps acc s h
-    have hcalls : ∀ (p : String) (sub : List Step) (acc : List (List String)) (s : String), ¬ p ∈ chain →
-        lookup fs p = some (.wf sub) → subworkflowCache norm fs sub acc (chain ++ [p]) ≠ .panic s := by
-      intro p sub acc' s' hc hl
-      have hlt := unvisited_lt hl hc
-      exact ihn (unvisited fs (chain ++ [p])) (by omega) (chain ++ [p]) rfl sub acc' s'
+    have hcalls : CallsNoPanic norm fs sup chain := by
+      intro e sub acc' s' hc hv
+      have hlt := measure_lt hv hc
+      exact ihn (measure fs sup (chain ++ [e])) (by omega) (chain ++ [e]) rfl sub acc' s'
     rw [subworkflowCache] at h
+    simp only at h
     split at h
     · cases h
+    · rename_i s' hsup
+      exact loopSupplied_no_panic norm fs sup chain hcalls _ _ s' hsup
     · split at h
-      · split at h
-        · cases h
-        · rename_i s' hloop
-          exact loop_no_panic norm fs chain hcalls _ _ s' hloop
-        · cases h
       · cases h
+      · split at h
+        · split at h
+          · cases h
+          · rename_i s' hloop
+            exact loop_no_panic norm fs sup chain hcalls _ _ s' hloop
+          · cases h
+        · cases h
 
 /-! ## completeness: an error is reported only when there is a problem -/
 
@@ -239,11 +401,38 @@ theorem allPresent_of (norm : String → String) (fs : FS) (paths : List String)
   obtain ⟨c, hc⟩ := h p hp
   simp [hc]
 
-theorem loop_complete (norm : String → String) (fs : FS) (chain : List String) :
+theorem loopSupplied_complete (norm : String → String) (fs : FS) (sup : Supplied) (chain : List String) :
+    ∀ (paths : List String) (acc : List (List String)),
+      (∀ p ∈ paths, ∀ c, supLookup sup p = some c → ¬ p ∈ chain ∧ ∃ sub, c = .wf sub ∧
+        ∀ acc', ∃ files, subworkflowCache norm fs sup sub acc' (chain ++ [p]) = .ok files) →
+      ∃ caches, loopSupplied norm fs sup chain paths acc = .ok caches := by
+  intro paths
+  induction paths with
+  | nil => intro acc _; exact ⟨acc, by rw [loopSupplied]⟩
+  | cons p rest ih =>
+    intro acc h
+    have hrest : ∀ acc', ∃ caches, loopSupplied norm fs sup chain rest acc' = .ok caches :=
+      fun acc' => ih acc' (fun p' hp' => h p' (by simp [hp']))
+    rw [loopSupplied]
+    split
+    · exact hrest acc
+    · rename_i hs
+      obtain ⟨_, sub, hc, _⟩ := h p (by simp) _ hs
+      cases hc
+    · rename_i sub hs
+      obtain ⟨hc, sub', hsub, hcall⟩ := h p (by simp) _ hs
+      injection hsub with hsub
+      subst hsub
+      rw [dif_neg hc]
+      obtain ⟨files, hfiles⟩ := hcall acc
+      simp only [hfiles]
+      exact hrest _
+
+theorem loop_complete (norm : String → String) (fs : FS) (sup : Supplied) (chain : List String) :
     ∀ (paths : List String) (acc : List (List String)),
       (∀ p ∈ paths, ¬ norm p ∈ chain ∧ ∃ sub, lookup fs (norm p) = some (.wf sub) ∧
-        ∀ acc', ∃ files, subworkflowCache norm fs sub acc' (chain ++ [norm p]) = .ok files) →
-      ∃ caches, loopFiles norm fs chain paths acc = .ok caches := by
+        ∀ acc', ∃ files, subworkflowCache norm fs sup sub acc' (chain ++ [norm p]) = .ok files) →
+      ∃ caches, loopFiles norm fs sup chain paths acc = .ok caches := by
   intro paths
   induction paths with
   | nil => intro acc _; exact ⟨acc, by rw [loopFiles]⟩
@@ -267,41 +456,302 @@ theorem loop_complete (norm : String → String) (fs : FS) (chain : List String)
 
 /-- if every transitively referenced file exists, converts, is not in the chain and not on a cycle, the discovery
     succeeds -/
-theorem cache_complete (norm : String → String) (fs : FS) : ∀ (n : Nat) (chain : List String), unvisited fs chain = n →
+theorem cache_complete (norm : String → String) (fs : FS) (sup : Supplied) : ∀ (n : Nat) (chain : List String),
+    measure fs sup chain = n →
     ∀ (steps : List Step) (acc : List (List String)),
-      (∀ q, Reach norm fs steps q →
-        (∃ st, lookup fs (norm q) = some (.wf st)) ∧ ¬ norm q ∈ chain ∧ ¬ OnCycle norm fs q) →
-      ∃ files, subworkflowCache norm fs steps acc chain = .ok files := by
+      (∀ q, Reach norm fs sup steps q →
+        (∃ st, denot norm fs sup q = some (.wf st)) ∧ ¬ entry norm sup q ∈ chain ∧ ¬ OnCycle norm fs sup q) →
+      ∃ files, subworkflowCache norm fs sup steps acc chain = .ok files := by
   intro n
   induction n using Nat.strongRecOn with
   | ind n ihn =>
     intro chain hn steps acc hgood
+    -- the recursive call for a referenced path `p` succeeds
+    have hcall : ∀ p ∈ stepWorkflowPaths steps, ∀ sub, denot norm fs sup p = some (.wf sub) →
+        Visitable fs sup (entry norm sup p) →
+        ∀ acc', ∃ files, subworkflowCache norm fs sup sub acc' (chain ++ [entry norm sup p]) = .ok files := by
+      intro p hp sub hsub hvis acc'
+      obtain ⟨_, hnc, hncyc⟩ := hgood p (.direct hp)
+      have hlt := measure_lt hvis hnc
+      apply ihn (measure fs sup (chain ++ [entry norm sup p])) (by omega) (chain ++ [entry norm sup p]) rfl sub acc'
+      intro q hq
+      obtain ⟨hv, hqc, hqcyc⟩ := hgood q (.trans hp hsub hq)
+      refine ⟨hv, ?_, hqcyc⟩
+      intro hmem
+      rcases List.mem_append.mp hmem with h1 | h1
+      · exact hqc h1
+      · simp at h1
+        exact hncyc ⟨sub, hsub, q, hq, h1⟩
+    have hsupl : ∃ caches₁, loopSupplied norm fs sup chain (stepWorkflowPaths steps) acc = .ok caches₁ := by
+      apply loopSupplied_complete
+      intro p hp c hs
+      obtain ⟨⟨sub, hsub⟩, hnc, _⟩ := hgood p (.direct hp)
+      rw [denot_supplied hs] at hsub
+      injection hsub with hsub
+      rw [entry_supplied hs] at hnc
+      refine ⟨hnc, sub, hsub, ?_⟩
+      have := hcall p hp sub (by rw [denot_supplied hs, hsub]) (by rw [entry_supplied hs]; exact Or.inr ⟨_, hs⟩)
+      rw [entry_supplied hs] at this
+      exact this
+    obtain ⟨caches₁, hc₁⟩ := hsupl
     rw [subworkflowCache]
+    simp only [hc₁]
     split
-    · exact ⟨[], rfl⟩
-    · have hpres : allPresent norm fs (stepWorkflowPaths steps) = true := by
+    · exact ⟨_, rfl⟩
+    · have hmemrest : ∀ p, p ∈ (stepWorkflowPaths steps).filter (fun p => (supLookup sup p).isNone) →
+          p ∈ stepWorkflowPaths steps ∧ supLookup sup p = none := by
+        intro p hp
+        have := List.mem_filter.mp hp
+        exact ⟨this.1, by simpa using this.2⟩
+      have hpres : allPresent norm fs ((stepWorkflowPaths steps).filter (fun p => (supLookup sup p).isNone)) = true := by
         apply allPresent_of
         intro p hp
+        obtain ⟨hp, hs⟩ := hmemrest p hp
         obtain ⟨⟨st, hst⟩, _, _⟩ := hgood p (.direct hp)
+        rw [denot_disk hs] at hst
         exact ⟨_, hst⟩
       simp only [hpres, if_true]
-      have hloop : ∃ caches, loopFiles norm fs chain (stepWorkflowPaths steps) acc = .ok caches := by
+      have hloop : ∃ caches, loopFiles norm fs sup chain
+          ((stepWorkflowPaths steps).filter (fun p => (supLookup sup p).isNone)) caches₁ = .ok caches := by
         apply loop_complete
         intro p hp
-        obtain ⟨⟨sub, hsub⟩, hnc, hncyc⟩ := hgood p (.direct hp)
-        refine ⟨hnc, sub, hsub, ?_⟩
-        intro acc'
-        have hlt := unvisited_lt hsub hnc
-        apply ihn (unvisited fs (chain ++ [norm p])) (by omega) (chain ++ [norm p]) rfl sub acc'
+        obtain ⟨hp, hs⟩ := hmemrest p hp
+        obtain ⟨⟨sub, hsub⟩, hnc, _⟩ := hgood p (.direct hp)
+        have hl : lookup fs (norm p) = some (.wf sub) := by rw [← denot_disk hs]; exact hsub
+        rw [entry_disk hs] at hnc
+        refine ⟨hnc, sub, hl, ?_⟩
+        have := hcall p hp sub hsub (by rw [entry_disk hs]; exact Or.inl ⟨_, hl⟩)
+        rw [entry_disk hs] at this
+        exact this
+      obtain ⟨caches, hcaches⟩ := hloop
+      simp only [hcaches]
+      exact ⟨_, rfl⟩
+
+/-! ## `checkSubworkflowCycles` -/
+
+/-- key `q` is referenced, by key, from `steps` through the contents `ctx` (a key without content is not followed) -/
+inductive KeyReach (ctx : FS) : List Step → String → Prop where
+  | direct {steps : List Step} {p : String} : p ∈ stepWorkflowPaths steps → KeyReach ctx steps p
+  | trans {steps sub : List Step} {p q : String} : p ∈ stepWorkflowPaths steps → lookup ctx p = some (.wf sub) →
+      KeyReach ctx sub q → KeyReach ctx steps q
+
+/-- the content of key `q` is a workflow that references key `q` again, directly or through other contents -/
+def KeyOnCycle (ctx : FS) (q : String) : Prop := ∃ st, lookup ctx q = some (.wf st) ∧ KeyReach ctx st q
+
+theorem loopCheck_ok (ctx : FS) (chain : List String) : ∀ (paths : List String), loopCheck ctx chain paths = .ok () →
+    ∀ p ∈ paths, ¬ p ∈ chain ∧ (lookup ctx p = none ∨
+      ∃ sub, lookup ctx p = some (.wf sub) ∧ checkCycles ctx sub (chain ++ [p]) = .ok ()) := by
+  intro paths
+  induction paths with
+  | nil => intro _ p hp; simp at hp
+  | cons x rest ih =>
+    intro h p hp
+    rw [loopCheck] at h
+    split at h
+    · cases h
+    · rename_i hc
+      split at h
+      · rename_i hl
+        rcases List.mem_cons.mp hp with rfl | hp
+        · exact ⟨hc, Or.inl hl⟩
+        · exact ih h p hp
+      · cases h
+      · rename_i sub hl
+        simp only at h
+        split at h
+        · cases h
+        · cases h
+        · rename_i hsub
+          rcases List.mem_cons.mp hp with rfl | hp
+          · exact ⟨hc, Or.inr ⟨sub, hl, hsub⟩⟩
+          · exact ih h p hp
+
+/-- Soundness of the check, by strong induction on the number of keys not yet in the chain: no key referenced from
+    `steps` is in the chain or on a reference cycle. -/
+theorem checkCycles_sound (ctx : FS) : ∀ (n : Nat) (chain : List String), unvisited ctx chain = n →
+    ∀ (steps : List Step), checkCycles ctx steps chain = .ok () →
+      ∀ q, KeyReach ctx steps q → ¬ q ∈ chain ∧ ¬ KeyOnCycle ctx q := by
+  intro n
+  induction n using Nat.strongRecOn with
+  | ind n ihn =>
+    intro chain hn steps h q hq
+    rw [checkCycles] at h
+    have hall := loopCheck_ok ctx chain _ h
+    have hrec : ∀ p sub, ¬ p ∈ chain → lookup ctx p = some (.wf sub) → checkCycles ctx sub (chain ++ [p]) = .ok () →
+        ∀ q, KeyReach ctx sub q → ¬ q ∈ chain ++ [p] ∧ ¬ KeyOnCycle ctx q := by
+      intro p sub hc hl hsub
+      have hlt := unvisited_lt hl hc
+      exact ihn (unvisited ctx (chain ++ [p])) (by omega) (chain ++ [p]) rfl sub hsub
+    cases hq with
+    | direct hp =>
+      obtain ⟨hnc, hrest⟩ := hall q hp
+      refine ⟨hnc, ?_⟩
+      rintro ⟨st, hst, hreach⟩
+      rcases hrest with hnone | ⟨sub, hl, hsub⟩
+      · rw [hnone] at hst; cases hst
+      · have := lookup_wf_inj hl hst
+        subst this
+        exact (hrec q sub hnc hl hsub q hreach).1 (by simp)
+    | trans hp hl' hq' =>
+      rename_i sub' p
+      obtain ⟨hnc, hrest⟩ := hall p hp
+      rcases hrest with hnone | ⟨sub, hl, hsub⟩
+      · rw [hnone] at hl'; cases hl'
+      · have := lookup_wf_inj hl hl'
+        subst this
+        obtain ⟨h₁, h₂⟩ := hrec p sub hnc hl hsub q hq'
+        exact ⟨fun hm => h₁ (by simp [hm]), h₂⟩
+
+theorem loopCheck_no_panic (ctx : FS) (chain : List String)
+    (hcalls : ∀ p sub s, ¬ p ∈ chain → lookup ctx p = some (.wf sub) → checkCycles ctx sub (chain ++ [p]) ≠ .panic s) :
+    ∀ (paths : List String) (s : String), loopCheck ctx chain paths ≠ .panic s := by
+  intro paths
+  induction paths with
+  | nil => intro s h; rw [loopCheck] at h; cases h
+  | cons x rest ih =>
+    intro s h
+    rw [loopCheck] at h
+    split at h
+    · cases h
+    · rename_i hc
+      split at h
+      · exact ih s h
+      · cases h
+      · rename_i sub hl
+        simp only at h
+        split at h
+        · cases h
+        · rename_i s' hsub
+          exact hcalls x sub s' hc hl hsub
+        · exact ih s h
+
+/-- no statement of the check panics -/
+theorem checkCycles_no_panic (ctx : FS) : ∀ (n : Nat) (chain : List String), unvisited ctx chain = n →
+    ∀ (steps : List Step) (s : String), checkCycles ctx steps chain ≠ .panic s := by
+  intro n
+  induction n using Nat.strongRecOn with
+  | ind n ihn =>
+    intro chain hn steps s h
+    rw [checkCycles] at h
+    refine loopCheck_no_panic ctx chain ?_ _ s h
+    intro p sub s' hc hl
+    have hlt := unvisited_lt hl hc
+    exact ihn (unvisited ctx (chain ++ [p])) (by omega) (chain ++ [p]) rfl sub s'
+
+theorem loopCheck_complete (ctx : FS) (chain : List String) : ∀ (paths : List String),
+    (∀ p ∈ paths, ¬ p ∈ chain ∧ (lookup ctx p = none ∨
+      ∃ sub, lookup ctx p = some (.wf sub) ∧ checkCycles ctx sub (chain ++ [p]) = .ok ())) →
+    loopCheck ctx chain paths = .ok () := by
+  intro paths
+  induction paths with
+  | nil => intro _; rw [loopCheck]
+  | cons x rest ih =>
+    intro h
+    obtain ⟨hc, hx⟩ := h x (by simp)
+    have hrest := ih (fun p hp => h p (by simp [hp]))
+    rw [loopCheck, dif_neg hc]
+    rcases hx with hnone | ⟨sub, hl, hsub⟩
+    · split
+      · exact hrest
+      · rename_i h'; rw [hnone] at h'; cases h'
+      · rename_i h'; rw [hnone] at h'; cases h'
+    · split
+      · rename_i h'; rw [hl] at h'; cases h'
+      · rename_i h'; rw [hl] at h'; cases h'
+      · rename_i sub' h'
+        have : sub' = sub := (lookup_wf_inj hl h').symm
+        subst this
+        simp only [hsub]
+        exact hrest
+
+/-- Completeness of the check: it returns no error when no key referenced from `steps` is in the chain, has a content
+    that does not convert, or is on a reference cycle. -/
+theorem checkCycles_complete (ctx : FS) : ∀ (n : Nat) (chain : List String), unvisited ctx chain = n →
+    ∀ (steps : List Step),
+      (∀ q, KeyReach ctx steps q → ¬ q ∈ chain ∧ lookup ctx q ≠ some .invalid ∧ ¬ KeyOnCycle ctx q) →
+      checkCycles ctx steps chain = .ok () := by
+  intro n
+  induction n using Nat.strongRecOn with
+  | ind n ihn =>
+    intro chain hn steps hgood
+    rw [checkCycles]
+    apply loopCheck_complete
+    intro p hp
+    obtain ⟨hnc, hninv, hncyc⟩ := hgood p (.direct hp)
+    refine ⟨hnc, ?_⟩
+    cases hl : lookup ctx p with
+    | none => exact Or.inl rfl
+    | some c =>
+      cases c with
+      | invalid => exact absurd hl hninv
+      | wf sub =>
+        refine Or.inr ⟨sub, rfl, ?_⟩
+        have hlt := unvisited_lt hl hnc
+        apply ihn (unvisited ctx (chain ++ [p])) (by omega) (chain ++ [p]) rfl sub
         intro q hq
-        obtain ⟨hv, hqc, hqcyc⟩ := hgood q (.trans hp hsub hq)
-        refine ⟨hv, ?_, hqcyc⟩
+        obtain ⟨hqc, hqi, hqcyc⟩ := hgood q (.trans hp hl hq)
+        refine ⟨?_, hqi, hqcyc⟩
         intro hmem
         rcases List.mem_append.mp hmem with h1 | h1
         · exact hqc h1
         · simp at h1
-          exact hncyc ⟨sub, hsub, q, hq, h1⟩
-      obtain ⟨caches, hcaches⟩ := hloop
-      exact ⟨(caches ++ [stepWorkflowPaths steps]).flatten, by simp only [hcaches]⟩
+          subst h1
+          exact hncyc ⟨sub, hl, hq⟩
+
+/-! ## the merged contents -/
+
+theorem lookup_append (a b : FS) (p : String) :
+    lookup (a ++ b) p = match lookup a p with
+      | some c => some c
+      | none => lookup b p := by
+  induction a with
+  | nil => rfl
+  | cons x xs ih =>
+    obtain ⟨n, c⟩ := x
+    simp only [List.cons_append, lookup]
+    split
+    · rfl
+    · exact ih
+
+theorem lookup_filterMap_some (norm : String → String) (fs : FS) (keys : List String) (p : String) (c : FileContent)
+    (h : lookup (keys.filterMap (fun k => (lookup fs (norm k)).map (fun c => (k, c)))) p = some c) :
+    lookup fs (norm p) = some c := by
+  induction keys with
+  | nil => simp [lookup] at h
+  | cons k ks ih =>
+    simp only [List.filterMap_cons] at h
+    cases hk : lookup fs (norm k) with
+    | none =>
+      simp only [hk, Option.map_none] at h
+      exact ih h
+    | some c' =>
+      simp only [hk, Option.map_some, lookup] at h
+      split at h
+      · rename_i hkp
+        subst hkp
+        rw [← h]
+        exact hk
+      · exact ih h
+
+/-- a content of the merged cache is the content the key denotes: the caller's, else the file's -/
+theorem merged_denot (norm : String → String) (fs files : FS) (keys : List String) (p : String) (c : FileContent)
+    (h : lookup (mergedContents norm fs files keys) p = some c) : denot norm fs (some files) p = some c := by
+  unfold mergedContents at h
+  rw [lookup_append] at h
+  unfold denot supLookup
+  cases hf : lookup files p with
+  | some c' =>
+    simp only [hf] at h ⊢
+    exact h
+  | none =>
+    simp only [hf] at h ⊢
+    exact lookup_filterMap_some norm fs keys p c h
+
+/-- what is reachable by key in the merged contents is reachable in the sense of the discovery -/
+theorem keyReach_reach (norm : String → String) (fs files : FS) (keys : List String) {steps : List Step} {q : String}
+    (h : KeyReach (mergedContents norm fs files keys) steps q) : Reach norm fs (some files) steps q := by
+  induction h with
+  | direct hp => exact .direct hp
+  | trans hp hl _ ih => exact .trans hp (merged_denot norm fs files keys _ _ hl) ih
 
 end Arca.Model.SubWf
